@@ -365,6 +365,13 @@ func (ex *Exec) newFrame(fn *ssa.Function, parent *Frame) *Frame {
 }
 
 var escCache = map[*ssa.Function]map[*ssa.Alloc]bool{}
+var spillCache = map[*ssa.Function]map[*ssa.Alloc]map[ssa.Value]bool{}
+
+// spilledAllocs: tracked locals whose address is stored in another local cell.
+func spilledAllocs(fn *ssa.Function) map[*ssa.Alloc]map[ssa.Value]bool {
+	escapingAllocs(fn)
+	return spillCache[fn]
+}
 
 var theGlobal *Global
 
@@ -382,6 +389,146 @@ func trackableCallee(callee *ssa.Function) bool {
 	return true
 }
 
+// inlinableLiteral: a function literal that doCall executes inline whenever the
+// depth budget allows (shouldInline); a call that is not inlined havocs the
+// captured locals (havocPointedLocals).
+func inlinableLiteral(cfn *ssa.Function) bool {
+	if cfn.Blocks == nil || cfn.Parent() == nil || hasLoops(cfn) || cfn.Recover != nil {
+		return false
+	}
+	if theGlobal != nil && theGlobal.cs != nil {
+		if fc := theGlobal.cs.Funcs[fnID(cfn)]; fc != nil {
+			return false
+		}
+	}
+	return true
+}
+
+// onlyCalled: the closure value is used only as the callee of plain calls,
+// directly or after being kept in a local variable that is assigned once.
+func onlyCalled(mc *ssa.MakeClosure) bool {
+	calleeOnly := func(v ssa.Value) bool {
+		refs := v.Referrers()
+		if refs == nil {
+			return false
+		}
+		for _, r := range *refs {
+			switch r := r.(type) {
+			case *ssa.Call:
+				if r.Call.Value != v {
+					return false
+				}
+				for _, a := range r.Call.Args {
+					if a == v {
+						return false
+					}
+				}
+			case *ssa.DebugRef:
+			case *ssa.Store:
+				if r.Val != v {
+					return false
+				}
+			default:
+				return false
+			}
+		}
+		return true
+	}
+	if !calleeOnly(mc) {
+		return false
+	}
+	for _, r := range *mc.Referrers() {
+		st, ok := r.(*ssa.Store)
+		if !ok {
+			continue
+		}
+		dst, ok := st.Addr.(*ssa.Alloc)
+		if !ok || dst.Heap || dst.Referrers() == nil {
+			return false
+		}
+		stores := 0
+		for _, dr := range *dst.Referrers() {
+			switch dr := dr.(type) {
+			case *ssa.Store:
+				if dr.Addr != dst {
+					return false
+				}
+				stores++
+			case *ssa.UnOp:
+				if dr.Op != token.MUL || !calleeOnly(dr) {
+					return false
+				}
+				for _, lr := range *dr.Referrers() {
+					if _, isStore := lr.(*ssa.Store); isStore {
+						return false
+					}
+				}
+			case *ssa.DebugRef:
+			default:
+				return false
+			}
+		}
+		if stores != 1 {
+			return false
+		}
+	}
+	return true
+}
+
+// writtenThrough: some store may go through the pointer v (or a pointer derived
+// from it), following inline callees and function literals.
+func writtenThrough(v ssa.Value, seen map[ssa.Value]bool) bool {
+	if seen[v] {
+		return false
+	}
+	seen[v] = true
+	refs := v.Referrers()
+	if refs == nil {
+		return true
+	}
+	for _, r := range *refs {
+		switch r := r.(type) {
+		case *ssa.Store:
+			if r.Addr == v || r.Val == v {
+				return true
+			}
+		case *ssa.FieldAddr:
+			if writtenThrough(r, seen) {
+				return true
+			}
+		case *ssa.IndexAddr:
+			if writtenThrough(r, seen) {
+				return true
+			}
+		case *ssa.UnOp, *ssa.DebugRef:
+		case *ssa.MakeClosure:
+			cfn, ok := r.Fn.(*ssa.Function)
+			if !ok {
+				return true
+			}
+			for i, b := range r.Bindings {
+				if b == v && (i >= len(cfn.FreeVars) || writtenThrough(cfn.FreeVars[i], seen)) {
+					return true
+				}
+			}
+		case ssa.CallInstruction:
+			c := r.Common()
+			callee := c.StaticCallee()
+			if callee == nil || callee.Blocks == nil {
+				return true
+			}
+			for i, a := range c.Args {
+				if a == v && (i >= len(callee.Params) || writtenThrough(callee.Params[i], seen)) {
+					return true
+				}
+			}
+		default:
+			return true
+		}
+	}
+	return false
+}
+
 // escapingAllocs: allocs whose address is used other than as the address
 // operand of a load/store reached through FieldAddr/IndexAddr chains.
 func escapingAllocs(fn *ssa.Function) map[*ssa.Alloc]bool {
@@ -389,6 +536,9 @@ func escapingAllocs(fn *ssa.Function) map[*ssa.Alloc]bool {
 		return m
 	}
 	m := map[*ssa.Alloc]bool{}
+	sp := map[*ssa.Alloc]map[ssa.Value]bool{}
+	spillCache[fn] = sp
+	var aliases map[ssa.Value]bool // loads that yield a copy of the current alloc's address
 	var addrOnly func(v ssa.Value, seen map[ssa.Value]bool) bool
 	addrOnly = func(v ssa.Value, seen map[ssa.Value]bool) bool {
 		if seen[v] {
@@ -420,6 +570,7 @@ func escapingAllocs(fn *ssa.Function) map[*ssa.Alloc]bool {
 								return false
 							}
 						case *ssa.UnOp:
+							aliases[dr] = true
 							if dr.Op != token.MUL || !addrOnly(dr, seen) {
 								return false
 							}
@@ -446,6 +597,18 @@ func escapingAllocs(fn *ssa.Function) map[*ssa.Alloc]bool {
 						return false
 					}
 				}
+			case *ssa.MakeClosure:
+				// captured by a function literal that is only ever called (inline) from this
+				// function: the cell stays a tracked local, reached through the free variable
+				cfn, ok := r.Fn.(*ssa.Function)
+				if !ok || !inlinableLiteral(cfn) || !onlyCalled(r) {
+					return false
+				}
+				for i, b := range r.Bindings {
+					if b == v && (i >= len(cfn.FreeVars) || !addrOnly(cfn.FreeVars[i], seen)) {
+						return false
+					}
+				}
 			case *ssa.FieldAddr:
 				if !addrOnly(r, seen) {
 					return false
@@ -468,8 +631,11 @@ func escapingAllocs(fn *ssa.Function) map[*ssa.Alloc]bool {
 	for _, b := range fn.Blocks {
 		for _, in := range b.Instrs {
 			if al, ok := in.(*ssa.Alloc); ok {
+				aliases = map[ssa.Value]bool{}
 				if !addrOnly(al, map[ssa.Value]bool{}) {
 					m[al] = true
+				} else if len(aliases) > 0 {
+					sp[al] = aliases
 				}
 			}
 		}
